@@ -270,3 +270,76 @@ pub mod coordinator {
         (s.xid(), s.xmin(), s.xmax())
     }
 }
+
+/// Expression parser entry point (sql::parser): canonical S-expression of the parsed tree.
+pub mod parser {
+    use crate::sql::parser::Parser;
+    use crate::sql::parser::ast::{BinaryOperator, Expr, UnaryOperator};
+
+    fn show(e: &Expr) -> String {
+        match e {
+            Expr::Number(n) => {
+                if n.fract() == 0.0 && n.abs() < 9.0e15 {
+                    format!("{}", *n as i64)
+                } else {
+                    format!("f{}", n.to_bits())
+                }
+            }
+            Expr::Identifier(s) => s.clone(),
+            Expr::String(s) => format!("'{}'", s),
+            Expr::Boolean(b) => format!("{}", b),
+            Expr::Null => "null".into(),
+            Expr::BinaryOp { left, op, right } => {
+                let name = match op {
+                    BinaryOperator::Or => "or",
+                    BinaryOperator::And => "and",
+                    BinaryOperator::Eq => "eq",
+                    BinaryOperator::Neq => "neq",
+                    BinaryOperator::Lt => "lt",
+                    BinaryOperator::Gt => "gt",
+                    BinaryOperator::Le => "le",
+                    BinaryOperator::Ge => "ge",
+                    BinaryOperator::Like => "like",
+                    BinaryOperator::NotLike => "notlike",
+                    BinaryOperator::Plus => "plus",
+                    BinaryOperator::Minus => "minus",
+                    BinaryOperator::Multiply => "mul",
+                    BinaryOperator::Divide => "div",
+                    BinaryOperator::Modulo => "mod",
+                    BinaryOperator::Concat => "concat",
+                    BinaryOperator::In => "in",
+                    BinaryOperator::NotIn => "notin",
+                    BinaryOperator::Is => "is",
+                    _ => "isnot",
+                };
+                format!("({} {} {})", name, show(left), show(right))
+            }
+            Expr::UnaryOp { op, expr } => {
+                let name = match op {
+                    UnaryOperator::Not => "not",
+                    UnaryOperator::Minus => "neg",
+                    UnaryOperator::Plus => "pos",
+                };
+                format!("({} {})", name, show(expr))
+            }
+            Expr::Between { expr, negated, low, high } => format!(
+                "({} {} {} {})",
+                if *negated { "notbetween" } else { "between" },
+                show(expr),
+                show(low),
+                show(high)
+            ),
+            Expr::List(l) => format!("(list {})", l.iter().map(show).collect::<Vec<_>>().join(" ")),
+            _ => "(other)".into(),
+        }
+    }
+
+    /// `Ok((tree, consumed_all))` or `Err(())` for a parse error.
+    pub fn parse_expr(sql: &str) -> Result<(String, bool), ()> {
+        let mut p = Parser::new(sql);
+        match p.parse_expression() {
+            Ok(e) => Ok((show(&e), p.verif_at_end())),
+            Err(_) => Err(()),
+        }
+    }
+}
